@@ -1,6 +1,8 @@
 import XalanModel.C17.CountersProofs
 import XalanModel.C17.FormatListGroupingProofs
 import XalanModel.C17.PatternCache
+import XalanModel.C17.TraditionalProofs
+import XalanModel.C17.ForestProofs
 import XalanModel.C17.NavigateProofs
 /-!
 # C17 — `xsl:number` counts per the Recommendation, independent of history; formatting decodes back
@@ -160,6 +162,36 @@ theorem number_spec_full (hz : anyZeroPrintsNothing = false) (d : Doc) (hwf : d.
   rw [hz]
   cases c.level <;> rfl
 
+/-- **Every document is well-formed.** For every ordered forest (first-child / next-sibling form), the document
+`Doc.ofForest` — document node 0, nodes in document order, parent / previous sibling / last child tabulated during the
+traversal — satisfies `Doc.WF` and `Doc.Closed`.  The driver builds its documents this way, so the hypotheses of the
+counting theorems are theorems, not run-time evaluations. -/
+theorem forest_doc_wf (top : Forest) : (Doc.ofForest top).WF ∧ (Doc.ofForest top).Closed :=
+  ⟨Doc.ofForest_wf top, Doc.ofForest_closed top⟩
+
+/-- **number_spec over all documents**: no well-formedness hypothesis — every forest, every instruction, every
+history of nodes of the document, every oracle, either form of the zero guard. -/
+theorem number_spec_forest (z : Bool) (top : Forest) (c : NumCfg) (hcons : CountConsistent c)
+    (after : Nat → Nat → Bool) (history : List Nat) (hh : ∀ n ∈ history, n < 1 + top.size) :
+    runNumberZ z (Doc.ofForest top) c after [] history = history.map (printedSpecZ z (Doc.ofForest top) c) := by
+  apply number_spec_general z (Doc.ofForest top) (Doc.ofForest_wf top) (Doc.ofForest_closed top) c hcons after history
+  intro n hn
+  have := hh n hn
+  show n < (docInfos top).length
+  simp only [docInfos, List.length_cons, Forest.infos_length]
+  omega
+
+/-- and the cache half for the transcribed navigation on every document: `getPreviousNode` moves backwards -/
+theorem getPreviousNode_decreases_forest (top : Forest) (c : NumCfg) :
+    ∀ n m, getPreviousNode (Doc.ofForest top) c n = some m → m < n :=
+  XalanModel.C17.getPreviousNode_decreases (Doc.ofForest_wf top) (Doc.ofForest_closed top) c
+
+/-- non-vacuity: the forest of `<r><h/><x/><x/><h/><x><x/></x></r>` flattens to the document `exDoc'` used below -/
+example :
+    let top : Forest := .cons (.cons .nil (.cons .nil (.cons .nil (.cons .nil (.cons (.cons .nil .nil) .nil))))) .nil
+    top.size = 7 ∧ (List.range 8).map (Doc.ofForest top).parent = [none, some 0, some 1, some 1, some 1, some 1, some 1, some 6] ∧
+    (Doc.ofForest top).prevSib 6 = some 5 ∧ (Doc.ofForest top).lastChild 1 = some 6 := by decide
+
 /-- `level="single"` and `level="multiple"`: full strength, the printed list *is* the §7.7 list -/
 theorem number_spec_single_multiple (d : Doc) (hwf : d.WF) (hcl : d.Closed) (c : NumCfg) (hl : c.level ≠ .any)
     (hcons : CountConsistent c) (after : Nat → Nat → Bool) (history : List Nat) (hh : ∀ n ∈ history, n < d.size) :
@@ -260,6 +292,31 @@ theorem alpha_no_overflow (n : Nat) (h : n < 2 ^ 64) :
 
 example : int2alphaCount alphaTable 18446744073709551615 = some [71, 75, 71, 87, 66, 89, 76, 87, 82, 88, 84, 76, 80, 79] := by
   decide +kernel
+
+/-! ## Traditional (Greek) numbering -/
+
+/-- **traditional_roundtrip_partial.** `format="α" letter-value="traditional"`: `traditionalAlphaCount` over the
+resource bundle read from the source (`elalphaBundle`: the only bundle the code ships — hundreds / tens / units letters,
+multiplier 1000 written with a preceding multiplier character) writes every n in 1 … 9999 as a numeral that reads back
+as n (letter values taken from the bundle, a multiplier character multiplying the letter after it).
+`_partial`: from 10000 on the algorithm is not injective — the multiplicative part emits one letter for the *leading
+digit* of the number of thousands and drops the rest (`traditional_collision_counterexample`), and from 1 000 000 on
+it answers `#error`. -/
+theorem traditional_roundtrip_partial (n : Nat) (h1 : 1 ≤ n) (h2 : n ≤ 9999) :
+    decodeTraditional elalphaBundle (traditionalAlphaCount elalphaBundle n) = some n :=
+  traditional_roundtrip_aux n h1 h2
+
+/-- 10000 and 11000 are written identically (`ϙι`): in `traditionalAlphaCount` the inner loop over the number groups
+`break`s after the first group that divides the multiplier count (11 / 10 = 1 → `ι`), the remainder 1 is never
+written.  Replayed on the real code by the check (known finding C17-traditional-beyond-9999). -/
+theorem traditional_collision_counterexample :
+    traditionalAlphaCount elalphaBundle 10000 = traditionalAlphaCount elalphaBundle 11000 ∧
+    traditionalAlphaCount elalphaBundle 10000 = [985, 953] ∧
+    traditionalAlphaCount elalphaBundle 1000000 = errorString := by
+  exact ⟨traditional_collision, by decide +kernel, by decide +kernel⟩
+
+example : traditionalAlphaCount elalphaBundle 2345 = [985, 946, 964, 956, 949] ∧
+    decodeTraditional elalphaBundle [985, 946, 964, 956, 949] = some 2345 := by decide +kernel
 
 /-! ## Roman numbering -/
 
